@@ -217,8 +217,70 @@ def run(rep):
             rep.violation(kind, key, where, {"wrapper": name, "problem": bad})
         else:
             rep.ok(kind, key, {"bytes_written": sorted("%s+%d" % k for k in mem)})
+    bit_range_invariant(rep)
     rep.floor("obligations:set", 40)
     rep.floor("obligations:get", 40)
     rep.floor("obligations:copy", 40)
     rep.floor("obligations:confined", 100)
     rep.floor("obligations:pixcopy", 40)
+
+
+def bit_range_invariant(rep):
+    """0 <= _bit_offset <= 7 is preserved by bit_advance(n), ++ and -- for every range size (interval analysis with
+    branch refinement); a violated bound is confirmed by constant propagation of a candidate (offset, n)"""
+    from .ir.num import NumInterp, Unsupported as NU
+    wd = os.path.join(C.BUILD, "work", "C08")
+    sizes = (1, 2, 3, 4, 5, 7, 8, 12, 16)
+    L = ['#include "vf_common.hpp"', 'using namespace vf;', 'extern "C" {']
+    obl = []
+    for r in sizes:
+        L.append("int w_adv_%d(unsigned char* p, int off, std::ptrdiff_t n){ bit_range<%d,true> r(p, off); r.bit_advance(n); return r.bit_offset(); }" % (r, r))
+        obl.append(("w_adv_%d" % r, "bit_advance(n)", r, True))
+        L.append("int w_inc_%d(unsigned char* p, int off){ bit_range<%d,true> r(p, off); ++r; return r.bit_offset(); }" % (r, r))
+        obl.append(("w_inc_%d" % r, "operator++", r, False))
+        L.append("int w_dec_%d(unsigned char* p, int off){ bit_range<%d,true> r(p, off); --r; return r.bit_offset(); }" % (r, r))
+        obl.append(("w_dec_%d" % r, "operator--", r, False))
+    L.append("}")
+    src = os.path.join(wd, "c08_bitrange.cpp")
+    open(src, "w").write("\n".join(L) + "\n")
+    bc = C.emit_ir(src, src[:-4] + ".bc")
+    d = C.irdump(bc, src[:-4] + ".json")
+    fns = {f["name"]: f for f in d["functions"]}
+    rep.rule("bit-offset invariant: for 0<=offset<=7 and any n, bit_advance(n), ++ and -- leave 0<=offset<=7 (the normal form every comparison and access relies on)")
+    for name, what, r, has_n in obl:
+        rep.count("obligations:bit-offset")
+        key = "bit-offset:bit_range<%d>::%s" % (r, what)
+        inputs = {"a1": ("int", 32, 0, 7)}
+        if has_n:
+            inputs["a2"] = ("int", 64, -(1 << 20), 1 << 20)
+        try:
+            it = NumInterp(fns[name], inputs)
+            ret = it.run()
+            ret = it.as_signed(ret, {}) if ret is not None else None
+        except NU as e:
+            rep.incon("bit-offset", key, str(e))
+            continue
+        if ret is not None and not ret.top and ret.lo >= 0 and ret.hi <= 7:
+            rep.ok("bit-offset", key, "[%s,%s]" % (ret.lo, ret.hi))
+            continue
+        # confirm with a concrete candidate
+        wit = None
+        cands = [(o, n) for o in range(8) for n in (range(-40, 41) if has_n else [0])]
+        for o, n in cands:
+            inp = {"a1": ("int", 32, o, o)}
+            if has_n:
+                inp["a2"] = ("int", 64, n, n)
+            try:
+                it2 = NumInterp(fns[name], inp)
+                r2 = it2.run()
+                r2 = it2.as_signed(r2, {}) if r2 is not None else None
+            except NU:
+                continue
+            if r2 is not None and not r2.top and r2.is_const() and not (0 <= r2.lo <= 7):
+                wit = {"offset": o, "n_bits": n, "resulting_offset": int(r2.lo)}
+                break
+        if wit:
+            rep.violation("bit-offset", key, "include/boost/gil/bit_aligned_pixel_reference.hpp (bit_range)", {"range": [str(ret.lo), str(ret.hi)] if ret is not None else None, "witness": wit})
+        else:
+            rep.incon("bit-offset", key, "range %s not within [0,7] and no witness" % ([str(ret.lo), str(ret.hi)] if ret is not None else None))
+    rep.floor("obligations:bit-offset", 20)
